@@ -129,6 +129,25 @@ class Ledger:
         self.draws = collections.defaultdict(list)    # point name -> [(t, value)]
         self.occ_hist = collections.defaultdict(list)  # edge_id -> [(t, occupancy after event)]
         self.crash = None
+        self.procs = []
+
+    def held_by_processes(self, node):
+        """ids of the objects that live processes of `node` (or its *_in_process attributes) still reference"""
+        out = set()
+        for a in ("item_in_process", "pallet_in_process"):
+            x = getattr(node, a, None)
+            if x is not None:
+                out.add(id(x))
+        for p in self.procs:
+            if not p.is_alive:
+                continue
+            fr = getattr(p._generator, "gi_frame", None)
+            if fr is None or fr.f_locals.get("self") is not node:
+                continue
+            for v in fr.f_locals.values():
+                out.add(id(v))
+        self.procs = [p for p in self.procs if p.is_alive]
+        return out
 
     # -- who is calling
     def caller(self):
@@ -323,7 +342,15 @@ def build(cfg, chooser):
     """cfg: dict(nodes=[...], edges=[...], order=..., until=...) -> (env, ledger)"""
     global CUR
     seams.load_all()
-    env = simpy.Environment()
+    class TEnv(simpy.Environment):
+        """process registry: every generator started through env.process is known to the ledger"""
+
+        def process(self, generator):
+            p = simpy.Environment.process(self, generator)
+            led.procs.append(p)
+            return p
+
+    env = TEnv()
     led = Ledger(env, cfg, chooser)
     CUR = led
     TItem, TPallet = _mk_tracking()
